@@ -1,5 +1,5 @@
 // C10/C13 correspondence harness: the real array block partition and the real hash
-// owners, evaluated on every rank.  args: "array" len,len,...  |  "hash" nkeys seed
+// owners, evaluated on every rank.  args: "array" len,len,...  |  "hash" nkeys seed  |  "keyeq" seed  | ...
 #include "hcommon.hpp"
 #include <ygm/comm.hpp>
 #include <ygm/container/array.hpp>
@@ -7,6 +7,24 @@
 #include <ygm/container/set.hpp>
 #include <ygm/container/disjoint_set.hpp>
 #include <ygm/io/multi_output.hpp>
+#include <cstring>
+
+// key types whose object bytes are not in 1:1 correspondence with their value (mode "keyeq"): equal keys are ONE key
+struct vkey { uint32_t id; uint32_t tag; template <class A> void serialize(A& ar) { ar(id, tag); } };   // identity = id only
+inline bool operator<(const vkey& x, const vkey& y) { return x.id < y.id; }
+inline bool operator==(const vkey& x, const vkey& y) { return x.id == y.id; }
+struct pkey { uint8_t a; uint64_t b; template <class A> void serialize(A& ar) { ar(a, b); } };           // 7 padding bytes
+inline bool operator<(const pkey& x, const pkey& y) { return x.a != y.a ? x.a < y.a : x.b < y.b; }
+inline bool operator==(const pkey& x, const pkey& y) { return x.a == y.a && x.b == y.b; }
+namespace std {
+template <> struct hash<vkey> { size_t operator()(const vkey& k) const { return std::hash<uint32_t>{}(k.id); } };
+template <> struct hash<pkey> { size_t operator()(const pkey& k) const { return std::hash<uint64_t>{}(k.b * 257 + k.a); } };
+}  // namespace std
+static __attribute__((noinline)) void make_pkey(pkey* out, uint8_t a, uint64_t b, int garbage) {
+  memset((void*)out, garbage, sizeof(pkey));   // the padding keeps the garbage: only the named members are assigned
+  out->a = a; out->b = b;
+  if (((const unsigned char*)out)[3] != (unsigned char)garbage) hc::out("padlost");
+}
 
 extern "C" int sim_main(int argc, char** argv) {
   ygm::comm world(MPI_COMM_WORLD);
@@ -111,6 +129,31 @@ extern "C" int sim_main(int argc, char** argv) {
       rev.barrier();
     }
     MPI_Comm_free(&revc);
+  } else if (mode == "keyeq") {
+    // owner must be a function of the KEY (as Compare / operator== see it), not of its object representation:
+    // one line per key `eq <kind> <key> <owner> <owner> ...` = owners of several representations of that key through map and set
+    hc::rng g(atol(argv[2]));
+    ygm::container::map<double, int> md(world); ygm::container::set<double> sd(world);
+    ygm::container::map<vkey, int> mv(world);   ygm::container::set<vkey> sv(world);
+    ygm::container::map<pkey, int> mp(world);   ygm::container::set<pkey> sp(world);
+    { double pz = 0.0, nz = -0.0; volatile double one = 1.0; double nz2 = -pz * one, pz2 = nz + pz;   // zeros computed at run time as well
+      std::ostringstream z; z << "eq d 0.0 " << md.owner(pz) << " " << md.owner(nz) << " " << sd.owner(pz) << " " << sd.owner(nz)
+                              << " " << md.owner(nz2) << " " << sd.owner(nz2) << " " << md.owner(pz2) << " " << sd.owner(pz2);
+      hc::out(z.str()); }
+    const uint32_t tags[] = {0u, 1u, (uint32_t)world.rank(), 255u, 0x80000000u, 0xffffffffu, (uint32_t)g.next()};
+    for (int i = 0; i < 24; ++i) {
+      uint32_t id = i < 8 ? (uint32_t)i : i == 8 ? 0xffffffffu : (uint32_t)g.next();
+      std::ostringstream o; o << "eq v " << id;
+      for (uint32_t t : tags) { vkey k{id, t}; o << " " << mv.owner(k) << " " << sv.owner(k); }
+      hc::out(o.str());
+    }
+    const int fills[] = {0x00, 0x01, 0x11, 0xab, 0xff, (int)(g.next() & 0xff), 0x10 * ((world.rank() % 15) + 1)};
+    for (int i = 0; i < 24; ++i) {
+      uint8_t a = (uint8_t)(i < 4 ? i : g.next()); uint64_t b = i < 8 ? (uint64_t)(i / 4) : i == 8 ? ~uint64_t(0) : g.next();
+      std::ostringstream o; o << "eq p " << (unsigned)a << ":" << b;
+      for (int f : fills) { pkey k; make_pkey(&k, a, b, f); o << " " << mp.owner(k) << " " << sp.owner(k); }
+      hc::out(o.str());
+    }
   } else {  // hash owners of generated keys, through every hash-partitioned container
     long nkeys = atol(argv[2]); hc::rng g(atol(argv[3]));
     ygm::container::map<int64_t, int> mi(world); ygm::container::map<std::string, int> ms(world);
